@@ -42,7 +42,7 @@ def run(res, f, tier):
     if not t:
         raise Inconclusive("recursive evaluator not found from Expr::evaluate")
     spec = load_spec()
-    res.floor("node kinds with operator functions", len(t["op_of_kind"]), 36)
+    res.floor("node kinds with operator functions", len(t["op_of_kind"]), 30)
     ncells = 0
     nbad = 0
     samples = []
@@ -71,7 +71,7 @@ def run(res, f, tier):
             res.violation("C02|cell|%s|%s" % (kind, key),
                           "%s%s: table says %s ; code does %s" % (kind, tuple(combo), fmt(want), fmt(actual)),
                           {"operator_fn": fns[0], "expected": want, "actual": actual})
-    res.floor("operator table cells", ncells, 1540)
+    res.floor("operator table cells", ncells, 1100)
     # composition: children results flow into the operator in order, its result is returned unchanged
     mm, st = dispatch.compare_rows(t, classes=("bool",))
     wiring_bad = 0
